@@ -98,8 +98,11 @@ func handleJcc(params x86genParams, ctx *CodeGenContext) ([]byte, error) {
 		// JMP rel8 (オペコード: eb, オフセット: 1 byte)
 		// JMP rel16 (オペコード: e9, オフセット: 2 bytes)
 		// JMP rel32 (オペコード: e9, オフセット: 4 bytes)
-		relativeOffset := destAddr - currentAddr // ジャンプ先までの相対距離
+		relativeOffset := destAddr - currentAddr        // ジャンプ先までの相対距離
 		offsetSize := getOffsetSize(relativeOffset - 2) // rel8 is measured from the end of the 2-byte short form
+		if ctx.BitMode == cpu.MODE_32BIT {
+			offsetSize = 4 // pass 1 sizes 32-bit mode jumps as near (rel32)
+		}
 
 		switch offsetSize {
 		case 1:
@@ -193,8 +196,12 @@ func handleJcc(params x86genParams, ctx *CodeGenContext) ([]byte, error) {
 		return nil, fmt.Errorf("invalid opcode kind for generateJMPCode: %v", params.OCode.Kind)
 	}
 
-	relativeOffset := destAddr - currentAddr // ジャンプ先までの相対距離を先に計算
-	switch getOffsetSize(relativeOffset - 2) { // rel8 is measured from the end of the 2-byte short form
+	relativeOffset := destAddr - currentAddr           // ジャンプ先までの相対距離を先に計算
+	jccOffsetSize := getOffsetSize(relativeOffset - 2) // rel8 is measured from the end of the 2-byte short form
+	if ctx.BitMode == cpu.MODE_32BIT {
+		jccOffsetSize = 4 // pass 1 sizes 32-bit mode jumps as near (rel32)
+	}
+	switch jccOffsetSize {
 	case 1: // rel8
 		// rel8: Opcode (1) + Offset (1) = 2 bytes
 		// オフセットはジャンプ命令の *次の* 命令のアドレスからの相対距離
